@@ -6,6 +6,7 @@ import (
 	"os"
 
 	"verifharness/fw"
+	_ "verifharness/props/c0102"
 	_ "verifharness/props/c07"
 	_ "verifharness/props/c08"
 	_ "verifharness/props/c09"
